@@ -30,46 +30,78 @@ fn any_unknown_type() -> (u64, bool) {
     (t as u64, grease)
 }
 
-#[derive(Clone, Copy, PartialEq, Eq)]
-enum Out {
-    None,
-    Err(u64),
-    Frame { type_id: u64, p0: u8, p1: u8, plen: usize, consumed: usize },
-}
-
-fn summarize(r: Result<Option<Frame<'_>>, ErrorCode>, consumed: usize) -> Out {
-    match r {
-        Ok(None) => Out::None,
-        Err(e) => Out::Err(e.to_code().into_inner()),
-        Ok(Some(f)) => {
-            let p = f.payload();
-            Out::Frame {
-                type_id: kind_id(f.kind()),
-                plen: p.len(),
-                p0: if p.len() > 0 { p[0] } else { 0 },
-                p1: if p.len() > 1 { p[1] } else { 0 },
-                consumed,
-            }
+// @h props=C13,C11 tier=quick t=900 sub=frame-read-unknown
+// @fn wtransport-proto/src/frame.rs Frame::read FrameKind::parse
+// @bound unknown/GREASE type = every value < 2^30 (1-, 2- and 4-byte varints) except DATA/HEADERS/SETTINGS/WT, or the 8-byte type 2^62-1; length 0..=3, arbitrary payload, one trailing byte
+// @oracle an unknown frame is reported (UnknownFrame) only after type, length AND payload have been consumed: consumed == |U| exactly; a GREASE frame is returned whole with consumed == |U|
+#[kani::proof]
+#[kani::unwind(10)]
+fn c13_frame_read_unknown_consumed() {
+    let big: bool = kani::any();
+    let t: u64 = if big {
+        VMAX
+    } else {
+        let t: u32 = kani::any();
+        kani::assume(t < (1 << 30));
+        kani::assume(t != 0x00 && t != 0x01 && t != 0x04 && t != 0x41);
+        t as u64
+    };
+    let grease = t >= 0x21 && (t - 0x21) % 0x1f == 0;
+    let l: usize = kani::any();
+    kani::assume(l <= 3);
+    let up: [u8; 3] = kani::any();
+    let mut s = [0u8; 13];
+    let mut n = ref_varint_put(t, &mut s);
+    s[n] = l as u8;
+    n += 1;
+    let mut i = 0;
+    while i < l {
+        s[n + i] = up[i];
+        i += 1;
+    }
+    let ulen = n + l;
+    s[ulen] = kani::any();
+    let mut rd: &[u8] = &s[..ulen + 1];
+    let got = Frame::read(&mut rd);
+    let consumed = ulen + 1 - rd.len();
+    match got {
+        Err(frame::ParseError::UnknownFrame) => {
+            assert!(!grease, "GREASE type reported as unknown");
+            assert!(consumed == ulen, "unknown frame reported before its length and payload were consumed");
+            kani::cover!(l == 3 && n == 5, "4-byte unknown type, 3-byte payload");
+            kani::cover!(big, "8-byte unknown type");
         }
+        Ok(Some(f)) => {
+            assert!(grease && kind_id(f.kind()) == t, "unknown type returned as a frame");
+            assert!(f.payload().len() == l && eq_prefix(f.payload(), &up, l) && consumed == ulen);
+            kani::cover!(n == 5, "4-byte GREASE type");
+        }
+        _ => assert!(false, "complete unknown/GREASE frame produced need-more or another error"),
     }
 }
 
-/// S = U || rest, U = (unknown/GREASE type t, length l <= 3, arbitrary payload), rest = arbitrary bytes.
-/// Reading S on a fresh stream must give: [GREASE: the GREASE frame itself, then] exactly what reading `rest`
-/// on a fresh stream gives, with |U| more bytes consumed.
-macro_rules! skip_whole {
-    ($name:ident, $mk:expr, $R:literal) => {
+/// expected reaction of each role to the *known* frame that follows the skipped one (RFC 9114 §7.2, WT draft §4)
+#[derive(Clone, Copy)]
+enum Role {
+    Control,
+    BiRemote,
+    BiLocal,
+}
+
+/// S = U || F2: U = unknown non-GREASE frame (1/2-byte type, length <= 3, arbitrary payload, so payloads that
+/// look like frames are included), F2 from {DATA, HEADERS, SETTINGS, WT(valid id), GREASE} with one payload byte,
+/// or a proper prefix of it. Reading S must give exactly what the role's table says for F2 alone.
+macro_rules! skip_then_known {
+    ($name:ident, $mk:expr, $role:expr) => {
         #[kani::proof]
-        #[kani::unwind(12)]
+        #[kani::unwind(11)]
         fn $name() {
             let (t, grease) = any_unknown_type();
+            kani::assume(!grease);
             let l: usize = kani::any();
             kani::assume(l <= 3);
             let up: [u8; 3] = kani::any();
-            let rest: [u8; $R] = kani::any();
-            let rlen: usize = kani::any();
-            kani::assume(rlen <= $R);
-            let mut s = [0u8; 6 + $R];
+            let mut s = [0u8; 10];
             let mut n = ref_varint_put(t, &mut s);
             s[n] = l as u8;
             n += 1;
@@ -79,49 +111,58 @@ macro_rules! skip_whole {
                 i += 1;
             }
             let ulen = n + l;
+            let sel: u8 = kani::any();
+            kani::assume(sel < 5);
+            let pb: u8 = kani::any();
+            let f2: [u8; 3] = match sel {
+                0 => [0x00, 0x01, pb],
+                1 => [0x01, 0x01, pb],
+                2 => [0x04, 0x01, pb],
+                3 => [0x40, 0x41, 0x04],
+                _ => [0x21, 0x01, pb],
+            };
+            let cut: usize = kani::any();
+            kani::assume(cut <= 3);
             let mut i = 0;
-            while i < rlen {
-                s[ulen + i] = rest[i];
+            while i < cut {
+                s[ulen + i] = f2[i];
                 i += 1;
             }
-            let total = ulen + rlen;
-
-            // reference run: `rest` alone on a fresh stream
-            let mut a = $mk;
-            let mut ra: &[u8] = &rest[..rlen];
-            let exp = summarize(a.read_frame(&mut ra), rlen - ra.len());
-
-            // run under test: U || rest
-            let mut b = $mk;
-            let mut rb: &[u8] = &s[..total];
-            let mut got = b.read_frame(&mut rb);
-            if grease {
-                // a GREASE frame is handed to the caller (who ignores it) as a whole, then the rest follows
-                match got {
-                    Ok(Some(g)) => {
-                        assert!(kind_id(g.kind()) == t, "GREASE frame not delivered as such");
-                        assert!(g.payload().len() == l && eq_prefix(g.payload(), &up, l), "GREASE payload not consumed whole");
-                        assert!(total - rb.len() == ulen, "GREASE frame not consumed whole");
-                    }
-                    _ => assert!(false, "GREASE frame refused"),
-                }
-                got = b.read_frame(&mut rb);
-                kani::cover!(true, "GREASE type");
+            let total = ulen + cut;
+            let mut st = $mk;
+            let mut rd: &[u8] = &s[..total];
+            let got = st.read_frame(&mut rd);
+            if cut < 3 {
+                assert!(matches!(got, Ok(None)), "incomplete frame after a skipped one did not ask for more data");
+                kani::cover!(cut == 2, "incomplete follower");
+                return;
             }
-            let out = summarize(got, total - rb.len());
-            match (exp, out) {
-                (Out::None, Out::None) => {
-                    kani::cover!(rlen > 0, "incomplete frame after the unknown one");
+            // role table for the follower (first known frame on the stream)
+            let role: Role = $role;
+            let expect: Result<(), u64> = match (role, sel) {
+                (Role::Control, 0) | (Role::Control, 1) | (Role::Control, 3) => Err(0x105),
+                (Role::Control, _) => Ok(()),
+                (Role::BiRemote, 2) => Err(0x105),
+                (Role::BiRemote, _) => Ok(()),
+                (Role::BiLocal, 2) | (Role::BiLocal, 3) => Err(0x105),
+                (Role::BiLocal, _) => Ok(()),
+            };
+            match (got, expect) {
+                (Ok(Some(f)), Ok(())) => {
+                    let id = [0u64, 1, 4, 0x41, 0x21][sel as usize];
+                    assert!(kind_id(f.kind()) == id, "frame after a skipped frame mis-identified");
+                    if sel != 3 {
+                        assert!(f.payload().len() == 1 && f.payload()[0] == pb, "payload of the following frame altered");
+                    } else {
+                        assert!(f.session_id().unwrap().into_u64() == 4);
+                    }
+                    assert!(rd.is_empty(), "input not consumed whole");
+                    kani::cover!(l == 3 && t >= 0x40, "2-byte unknown type with 3-byte payload skipped");
+                    kani::cover!(l == 2 && up[0] == 0x04 && up[1] == 0x00, "skipped payload that looks like a SETTINGS frame");
                 }
-                (Out::Err(e1), Out::Err(e2)) => {
-                    assert!(e1 == e2, "unknown frame changed the error of the following frame");
-                    kani::cover!(!grease, "error after unknown frame");
-                }
-                (Out::Frame { type_id, p0, p1, plen, consumed }, Out::Frame { type_id: t2, p0: q0, p1: q1, plen: l2, consumed: c2 }) => {
-                    assert!(type_id == t2 && plen == l2 && p0 == q0 && p1 == q1, "frame after an unknown frame was mis-read");
-                    assert!(c2 == consumed + ulen, "unknown frame not consumed whole");
-                    kani::cover!(!grease && l == 3, "unknown non-GREASE frame with 3-byte payload skipped");
-                    kani::cover!(!grease && t >= 0x40, "2-byte unknown type skipped");
+                (Err(e), Err(code)) => {
+                    assert!(e.to_code().into_inner() == code, "wrong error code after a skipped frame");
+                    kani::cover!(true, "follower refused by the role table");
                 }
                 _ => assert!(false, "length/payload of an unknown frame were interpreted (outcome differs from the exchange without it)"),
             }
@@ -130,23 +171,23 @@ macro_rules! skip_whole {
 }
 
 // @h props=C13 tier=quick t=1800 sub=frame-skip-control
-// @fn wtransport-proto/src/stream.rs StreamUniRemoteH3::{read_frame,validate_frame}; wtransport-proto/src/frame.rs Frame::read FrameKind::parse
-// @bound control stream; unknown/GREASE type = every 1- and 2-byte varint value except DATA/HEADERS/SETTINGS/WT; length 0..=3 with arbitrary payload (incl. payloads that look like frames); followed by every byte string of length 0..=4
-// @oracle metamorphic: read(U || rest) == read(rest) (kind, payload, error code), |U| more bytes consumed; a GREASE frame is delivered whole first
-// @outside unknown types with 4/8-byte encodings (thorough); payloads > 3 bytes
-skip_whole!(c13_skip_unknown_control, control_stream(), 4);
+// @fn wtransport-proto/src/stream.rs StreamUniRemoteH3::{read_frame,validate_frame}; wtransport-proto/src/frame.rs Frame::read
+// @bound control stream; one unknown non-GREASE frame (every 1-/2-byte type, length 0..=3, arbitrary payload incl. frame look-alikes) followed by DATA/HEADERS/SETTINGS/WT/GREASE (one payload byte) or any proper prefix of it
+// @oracle reaction == role table applied to the follower alone (RFC 9114 §7.2.8/§9: unknown frames are ignored); follower's kind/payload exact; all input consumed
+// @outside more than one inserted frame per read (each read starts the same loop again); 4/8-byte types here (c13_frame_read_unknown_consumed covers the decoder)
+skip_then_known!(c13_skip_unknown_control, control_stream(), Role::Control);
 
 // @h props=C13 tier=quick t=1800 sub=frame-skip-biremote
 // @fn wtransport-proto/src/stream.rs StreamBiRemoteH3::{read_frame,validate_frame}; wtransport-proto/src/frame.rs Frame::read
 // @bound peer-opened request stream; as c13_skip_unknown_control
 // @oracle as c13_skip_unknown_control
-skip_whole!(c13_skip_unknown_biremote, Stream::accept_bi().upgrade(), 4);
+skip_then_known!(c13_skip_unknown_biremote, Stream::accept_bi().upgrade(), Role::BiRemote);
 
 // @h props=C13 tier=quick t=1800 sub=frame-skip-bilocal
 // @fn wtransport-proto/src/stream.rs StreamBiLocalH3::{read_frame,validate_frame}; wtransport-proto/src/frame.rs Frame::read
 // @bound locally-opened request stream; as c13_skip_unknown_control
 // @oracle as c13_skip_unknown_control
-skip_whole!(c13_skip_unknown_bilocal, Stream::open_bi().upgrade(), 4);
+skip_then_known!(c13_skip_unknown_bilocal, Stream::open_bi().upgrade(), Role::BiLocal);
 
 // @h props=C13,C15 tier=quick t=900 sub=frame-skip-prefix
 // @fn wtransport-proto/src/stream.rs StreamUniRemoteH3::read_frame_from_buffer; wtransport-proto/src/frame.rs Frame::{read,read_from_buffer}
